@@ -24,10 +24,13 @@ pub struct C13Case {
     /// 3 = extras_length 21, 4 = extras_length 255 (the body is oversized in every case: 'too large' is still due)
     #[serde(default)]
     pub hdr: u8,
+    /// the client goes silent for this long after the first chunk (the oversized body is then in flight)
+    #[serde(default)]
+    pub stall_ms: u16,
 }
 
 pub const SPLITS: usize = 11;
-pub const RULE: &str = "enumeration: item size limits {1 KiB, 2 KiB, 4 KiB-1, 64 KiB, 1 MiB, 4 MiB} x body length {limit-1, limit, limit+1, 2*limit, 16*limit (<= 8 MiB), 2^32-1 announced with early close} x every opcode in the protocol table (also with key_length 251/65535 or extras_length 21/255 in the oversized header) x position in the pipeline {first, middle, last} x split of the oversized frame between the first enforced chunk and the rest {header only, +1 body byte, 1/4, 1/2-1, 1/2, 1/2+1, 3/4, body-1, whole body, body + part of the next request, everything in one chunk}, each on a fresh loopback connection to an in-process server (quick tier: a fixed sub-grid; thorough: full grid plus proptest-random points). Oracle: the oversized request is answered exactly once with status 0x03 and its opaque; the requests before and after it are answered exactly as if it had never been sent (get of a key set before it hits, a counter increment after it returns its initial value, the sentinel noop is answered); the key it names is absent from the store (in-process side channel); a body of at most the limit is never answered 0x03 and a limit-sized set is stored. non-trivial = an oversized frame followed by at least one request with at least one body byte in the first chunk";
+pub const RULE: &str = "enumeration: item size limits {1 KiB, 2 KiB, 4 KiB-1, 64 KiB, 1 MiB, 4 MiB} x body length {limit-1, limit, limit+1, 2*limit, 16*limit (<= 8 MiB), 2^31-1 / 2^31 / 2^31+4096 / 2^32-1 announced with 64 KiB of complete set requests sent as body and an early close} x every opcode in the protocol table (also with key_length 251/65535 or extras_length 21/255 in the oversized header) x position in the pipeline {first, middle, last} x split of the oversized frame between the first enforced chunk and the rest {header only, +1 body byte, 1/4, 1/2-1, 1/2, 1/2+1, 3/4, body-1, whole body, body + part of the next request, everything in one chunk} (and, for a sub-grid, a client that goes silent for 0.3 / 1.2 / 2.5 s after that first chunk), each on a fresh loopback connection to an in-process server (quick tier: a fixed sub-grid; thorough: full grid plus proptest-random points). Oracle: the oversized request is answered exactly once with status 0x03 and its opaque; the requests before and after it are answered exactly as if it had never been sent (get of a key set before it hits, a counter increment after it returns its initial value, the sentinel noop is answered); the key it names is absent from the store (in-process side channel); a body of at most the limit is never answered 0x03 and a limit-sized set is stored. non-trivial = an oversized frame followed by at least one request with at least one body byte in the first chunk";
 pub const ASSUME: &[&str] = &[
     "the server reads into a 4 KiB buffer, so the part of a large body that is buffered when its header is parsed is bounded by what one read returns; the split table is applied to the first enforced chunk",
     "bodies above 8 MiB are only announced, not sent in full",
@@ -41,6 +44,9 @@ fn body_len(c: &C13Case) -> u64 {
         2 => l + 1,
         3 => 2 * l,
         4 => (16 * l).min(8 << 20).max(l + 2),
+        6 => 0x8000_0000,
+        7 => 0x8000_0000 + 4096,
+        8 => 0x7fff_ffff,
         _ => 0xffff_ffff,
     }
 }
@@ -87,6 +93,18 @@ pub fn run_case(c: &C13Case) -> CaseReport {
                 4 => f.extras_len = 255,
                 _ => {}
             }
+        }
+        if early_close {
+            // the part of the announced body that is sent consists of complete, valid set requests: a
+            // server that does not discard the body executes them
+            let mut smug = vec![];
+            wire::store(wire::SET, b"smug", b"x", 0, 0, 0x5A, 0).write_to(&mut smug);
+            let mut body = Vec::with_capacity(present);
+            while body.len() + smug.len() <= present {
+                body.extend_from_slice(&smug);
+            }
+            body.resize(present, 0);
+            f.body = body;
         }
         f.write_to(&mut stream);
     }
@@ -161,11 +179,19 @@ pub fn run_case(c: &C13Case) -> CaseReport {
         if server.side_get(b"big").is_some() {
             rep.fail = Some(fail("oversized_stored", "the oversized request's key is in the store".into()));
         }
+        if server.side_get(b"smug").is_some() {
+            rep.fail = Some(fail("oversized_body_executed", format!("the first 64 KiB of a body announced as {} bytes were complete set requests: the server executed them (key 'smug' is stored) instead of discarding the body", b)));
+        }
         rep.classes.push("early_close".into());
+        rep.classes.push(format!("announced:{:#x}", b));
         rep.nontrivial = true;
         return rep;
     }
-    let run = match netpipe::run_connection(&server, &chunks, Finish::Sentinel, Duration::from_secs(15)) {
+    let pause = if c.stall_ms > 0 { Some((0usize, Duration::from_millis(c.stall_ms as u64))) } else { None };
+    if pause.is_some() {
+        rep.classes.push("silence_inside_oversized_body".into());
+    }
+    let run = match netpipe::run_connection_paced(&server, &chunks, Finish::Sentinel, Duration::from_secs(15), pause) {
         Ok(r) => r,
         Err(e) => {
             rep.classes.push(format!("inconclusive:{}", e));
@@ -267,17 +293,32 @@ fn grid(ctx: &Ctx) -> Vec<C13Case> {
                         if *l >= (1 << 20) && !ops_quick().contains(op) {
                             continue;
                         }
-                        v.push(C13Case { limit: *l, op: *op, size_sel: *s, split, pos, workers: if (li + split as usize) % 2 == 0 { 0 } else { 2 }, hdr: 0 });
+                        v.push(C13Case { limit: *l, op: *op, size_sel: *s, split, pos, workers: if (li + split as usize) % 2 == 0 { 0 } else { 2 }, hdr: 0, stall_ms: 0 });
                         // oversized frames whose key/extras length fields are out of range as well
                         if *s >= 2 && (split == 0 || split == 8 || split == 10) && pos == 1 && *l <= 65536 {
                             let hdr = 1 + ((*op as usize + split as usize + *s as usize) % 4) as u8;
-                            v.push(C13Case { limit: *l, op: *op, size_sel: *s, split, pos, workers: 0, hdr });
+                            v.push(C13Case { limit: *l, op: *op, size_sel: *s, split, pos, workers: 0, hdr, stall_ms: 0 });
                         }
                     }
                 }
             }
         }
-        v.push(C13Case { limit: *l, op: wire::SET, size_sel: 5, split: 8, pos: 2, workers: 0, hdr: 0 });
+        // the client pauses (0.3 s, 1.2 s, 2.5 s) while part of the oversized body is still to come
+        if *l <= 65536 {
+            for (i, stall) in [300u16, 1200, 2500].iter().enumerate() {
+                for (j, split) in [0u8, 2, 4, 7].iter().enumerate() {
+                    let op = [wire::SET, wire::APPEND, wire::ADDQ, wire::INCR][(i + j) % 4];
+                    v.push(C13Case { limit: *l, op, size_sel: 2 + ((i + j) % 3) as u8, split: *split, pos: 1, workers: if j % 2 == 0 { 0 } else { 2 }, hdr: 0, stall_ms: *stall });
+                }
+            }
+        }
+        // bodies that are only announced (2^31-1, 2^31, 2^31+4096, 2^32-1), header alone / header with part of the
+        // body / everything sent in the first chunk
+        for (i, sel) in [5u8, 6, 7, 8].iter().enumerate() {
+            for split in [0u8, 2, 8] {
+                v.push(C13Case { limit: *l, op: if (i + split as usize) % 2 == 0 { wire::SET } else { wire::APPEND }, size_sel: *sel, split, pos: 2, workers: 0, hdr: 0, stall_ms: 0 });
+            }
+        }
     }
     v
 }
@@ -291,7 +332,7 @@ pub fn strategy() -> BoxedStrategy<C13Case> {
         0u8..3,
         prop_oneof![Just(0u8), Just(2u8)],
     )
-        .prop_map(|(limit, op, size_sel, split, pos, workers)| C13Case { limit, op, size_sel, split, pos, workers, hdr: (op % 5) })
+        .prop_map(|(limit, op, size_sel, split, pos, workers)| C13Case { limit, op, size_sel, split, pos, workers, hdr: (op % 5), stall_ms: 0 })
         .boxed()
 }
 
@@ -343,6 +384,18 @@ pub fn check(ctx: &mut Ctx) -> i32 {
         write_evidence(ctx, &acc, RULE, ASSUME, 1);
         print_summary(ctx, &acc);
         return EXIT_VIOLATION;
+    }
+    // ordinary histories with limit-sized and oversized values among them (in-process and over TCP)
+    {
+        let hp = crate::props::hist_family::c13_aux();
+        let mut hctx = Ctx::new("C13", ctx.tier, "exploration");
+        hctx.hang_secs = Some(30);
+        let code = crate::histprop::explore_all(&hctx, &hp, &acc);
+        if code != EXIT_OK {
+            // evidence and summary were written by the history driver with its own rule text: rewrite with ours
+            write_evidence(ctx, &acc, RULE, ASSUME, 1);
+            return code;
+        }
     }
     if !ctx.quick() {
         if let Some(f) = explore(ctx, &acc, "random-points", "c13", &strategy, 150, ctx.workers, run_case) {
